@@ -42,3 +42,30 @@ def c14(ctx):
         not_decided=['that of_generate_gf / of_rs_init_mul_table compute the right entries from that polynomial (value-level: '
                      'deciding it means evaluating the loops)'],
         exhaustive=True)
+
+
+from . import rules_prng as P
+
+
+@prop('C19')
+def c19(ctx):
+    extra = {}
+    for prog in programs(ctx):
+        P.r_seedrange(ctx, prog)
+        info = P.r_prng_step(ctx, prog)
+        P.r_prng_effect(ctx, prog)
+        P.r_fpscale(ctx, prog)
+        extra['step_analysis_' + prog.config] = info
+    return dict(
+        explanation='R-SEEDRANGE: guard interval of the only store in of_rfc5170_srand is exactly [1, 2^31-2] and the stored value is '
+        'the argument. R-PRNG-STEP: abstract interpretation of the loop-free update in of_rfc5170_rand with linear forms over split '
+        'atoms (x = 2^k*hi_k(x)+lo_k(x)) and unsigned intervals proves next = 16807*s mod (2^31-1) for every s in [1, 2^31-2], that the '
+        'result is the canonical residue in [1, 2^31-2] and that no intermediate overflows 64 bits; multiplier and modulus are read from '
+        'the IR. The 10,000th-state check value then follows as A^10000 mod P on the extracted constants. R-FPSCALE: the returned '
+        'expression tree is RFC 5170\'s scaling expression on the updated state. R-PRNG-EFFECT: reads/writes only of_seed, once.',
+        decides=['seeding accepts exactly 1..2^31-2', 's\' = 16807*s mod (2^31-1) for all states (congruence proof, not enumeration)',
+                 '10,000th state after seed 1 (from the proven recurrence and extracted constants)',
+                 'the returned value is the RFC reference expression (expression tree)', 'effects of both routines'],
+        not_decided=['the floating-point claims (result in 0..maxv-1, equals exact floor below 2^53): rounding behaviour of the double '
+                     'expression is not analysed'],
+        extra=extra)
